@@ -9,6 +9,14 @@ Fairness of the fake (DESIGN.md, C27 'Channel model'): the real transport is ONE
    connection fails too (RpcChannelClosedException / ConnectionClosedError are terminal for a websocket) until the
    runner has disconnected and connected again.
 
+Late replies (case["late"], optional): the fate of a message is STILL decided and logged when send_async is called
+(ordered channel), but for a seeded subset of the sends issued after the arming point the reply - the
+ProtocolNetworkException of a lost message as well as the SuccessMessage of a delivered one - is released only after a
+long virtual delay taken from case["late"]["delays"] (chosen around / beyond a whole reconnect + catch-up cycle: a request
+that hangs on a dead connection until a transport time-out). This holds for sends issued in every runner state,
+CatchingUp included. The decision uses its own seeded stream, so scenarios without "late" are unchanged. A scenario
+ends only after every late reply has been released and the runner has then been steady for 2 s (>= 6 send rounds).
+
 Nothing in /repo is edited. Observation: subclassed dispatcher, instance-level wrappers around
 EngineRunner._post_async / _buffer_message (record and delegate), state_changing_callback.
 """
@@ -66,7 +74,8 @@ class ScriptedDispatcher(EngineDispatcher):
     send_bits / conn_bits: lists of booleans (True = ok) consumed - only while `armed` - by successive send_async
     calls on a live connection / successive connect_async calls. Exhausted script => ok."""
 
-    def __init__(self, message_builder, rnd: random.Random, log: list, send_bits, conn_bits):
+    def __init__(self, message_builder, rnd: random.Random, log: list, send_bits, conn_bits, late: dict | None = None,
+                 late_seed: int = 0):
         super().__init__(message_builder, "virtual.invalid", False,
                          dict(uod_name="u", uod_author_name="a", uod_author_email="e", uod_filename="f", location="l"))
         self.rnd = rnd
@@ -79,6 +88,9 @@ class ScriptedDispatcher(EngineDispatcher):
         self.consumed: list[str] = []
         self.inflight: dict[int, str] = {}     # id(message) -> fate, reply not yet released
         self.runner = None
+        self.late = late                       # None | {"p_fail": float, "p_ok": float, "delays": [seconds, ...]}
+        self.rnd_late = random.Random(late_seed ^ 0x1A7E) if late else None
+        self.late_pending = 0                  # late replies not yet released
 
     def script_left(self) -> int:
         return len(self.send_bits) + len(self.conn_bits)
@@ -120,10 +132,22 @@ class ScriptedDispatcher(EngineDispatcher):
         self.log.append(("send", id(message), message.sequence_number, ok, self.conn_id, st))
         self.inflight[id(message)] = "ok" if ok else "fail"
         lat = self.rnd.choice(LAT_SEND)
+        late = False
+        if self.late is not None and self.armed:
+            assert self.rnd_late is not None
+            r, d = self.rnd_late.random(), self.rnd_late.choice(self.late["delays"])
+            if r < (self.late["p_ok"] if ok else self.late["p_fail"]):
+                lat, late = d, True
+                self.late_pending += 1
+                self.log.append(("late", id(message), ok, d, st))
         try:
             await asyncio.sleep(lat)
         finally:
             self.inflight.pop(id(message), None)
+            if late:
+                self.late_pending -= 1
+        if late:
+            self.log.append(("late_reply", id(message), ok, st, self.runner._state if self.runner is not None else None))
         self.log.append(("reply", id(message), ok))
         if not ok:
             raise ProtocolNetworkException("scripted send failure")
@@ -146,7 +170,7 @@ async def _run(case: dict, out: dict):
     out.update(log=log, info=info)
     try:
         mb = EngineMessageBuilder(rig.e, "", False)
-        disp = ScriptedDispatcher(mb, rnd, log, case["send"], case["conn"])
+        disp = ScriptedDispatcher(mb, rnd, log, case["send"], case["conn"], case.get("late"), case["seed"])
         runner = ER.EngineRunner(disp, mb, rig.e.emitter, loop)
         disp.runner = runner
         act = case["act"]
@@ -224,11 +248,12 @@ async def _run(case: dict, out: dict):
                         log.append(("cmd", "Start"))
                 rig.tick(catch=True)
                 await asyncio.sleep(0.1)
-                # termination: script used up (or cannot be used any more), stop handled, runner steady for 3 s
+                # termination: script used up (or cannot be used any more), stop handled, every late reply released,
+                # and after that the runner steady for 2 s
                 steady = runner._state in ("Connected", "Reconnected")
                 done_script = disp.armed and (disp.script_left() == 0 or now - t_start > 60.0)
                 done_stop = st[0] == "never" or (trig["stop_issued"] and second_due is None) or now - t_start > 60.0
-                if steady and done_script and done_stop:
+                if steady and done_script and done_stop and disp.late_pending == 0:
                     if quiet_since is None:
                         quiet_since = now
                     elif now - quiet_since >= 2.0:
